@@ -55,29 +55,50 @@ fn twice<Op>(op: Op) where Op: Clone + Observable<u8, u8, Probe> {
 //@ bounded: at most 3 items
 #[kani::proof]
 #[kani::unwind(8)]
-fn clones_of_counting_operators_are_independent() {
+fn clones_of_take_are_independent() {
   let s = any_cscript();
   let k: usize = kani::any();
   kani::assume(k <= 4);
-  let which: u8 = kani::any();
-  if which == 0 { twice(s.take(k)); }
-  else if which == 1 { twice(s.skip(k)); }
-  else { twice(s.take_while(move |v| (*v as usize) < k)); }
+  twice(s.take(k));
+}
+//@ bounded: at most 3 items
+#[kani::proof]
+#[kani::unwind(8)]
+fn clones_of_skip_are_independent() {
+  let s = any_cscript();
+  let k: usize = kani::any();
+  kani::assume(k <= 4);
+  twice(s.skip(k));
+}
+//@ bounded: at most 3 items
+#[kani::proof]
+#[kani::unwind(8)]
+fn clones_of_take_while_are_independent() {
+  let s = any_cscript();
+  let k: u8 = kani::any();
+  twice(s.take_while(move |v| *v < k));
 }
 
 // [C13] accumulating / remembering operators
 //@ bounded: at most 3 items
 #[kani::proof]
 #[kani::unwind(8)]
-fn clones_of_accumulating_operators_are_independent() {
+fn clones_of_scan_and_reduce_are_independent() {
+  let s = any_cscript();
+  let d: u8 = kani::any();
+  if kani::any() { twice(s.scan_initial(d, |a: u8, v: u8| a.wrapping_add(v))); }
+  else { twice(s.reduce_initial(d, |a: u8, v: u8| a.wrapping_mul(3).wrapping_add(v))); }
+}
+//@ bounded: at most 3 items
+#[kani::proof]
+#[kani::unwind(8)]
+fn clones_of_last_distinct_default_are_independent() {
   let s = any_cscript();
   let d: u8 = kani::any();
   let which: u8 = kani::any();
-  if which == 0 { twice(s.scan_initial(d, |a: u8, v: u8| a.wrapping_add(v))); }
-  else if which == 1 { twice(s.last()); }
-  else if which == 2 { twice(s.distinct_until_changed()); }
-  else if which == 3 { twice(s.default_if_empty(d)); }
-  else { twice(s.reduce_initial(d, |a: u8, v: u8| a.wrapping_mul(3).wrapping_add(v))); }
+  if which == 0 { twice(s.last()); }
+  else if which == 1 { twice(s.distinct_until_changed()); }
+  else { twice(s.default_if_empty(d)); }
 }
 
 // [C13,C15] finalize: every subscription of a clone runs ITS finalizer exactly once
